@@ -42,7 +42,21 @@ enum Flow {
     Unspecified,
 }
 
+thread_local! {
+    /// values of ($ggas, $cgas) an instruction reads as operands: the ones after its own
+    /// gas was charged (= the values after the step, nothing else in a jump changes them)
+    static GAS_VIEW: std::cell::Cell<Option<(u64, u64)>> = const { std::cell::Cell::new(None) };
+}
+
 fn reg(s: &Snap, r: RegId) -> u128 {
+    if let Some((g, c)) = GAS_VIEW.with(|v| v.get()) {
+        if r == RegId::GGAS {
+            return g as u128;
+        }
+        if r == RegId::CGAS {
+            return c as u128;
+        }
+    }
     s.regs[r.to_u8() as usize] as u128
 }
 
@@ -119,6 +133,46 @@ fn reference(i: &Instruction, pre: &Snap) -> Flow {
     }
 }
 
+/// Register operands a jump reads. `$ggas`/`$cgas` among them make the step unjudgeable from
+/// the registers before the step: the VM charges the instruction's gas before it reads its
+/// operands, so the value used is the one after charging (false alarm met at seed 4: `jnef`
+/// with `$ggas` as the dynamic offset landed one instruction short of the reference).
+fn reads_gas_register(i: &Instruction) -> bool {
+    let g = |r: RegId| r == RegId::GGAS || r == RegId::CGAS;
+    match i {
+        Instruction::JNEI(o) => {
+            let (a, b, _) = o.unpack();
+            g(a) || g(b)
+        }
+        Instruction::JNZI(o) => g(o.unpack().0),
+        Instruction::JMP(o) => g(o.unpack()),
+        Instruction::JNE(o) => {
+            let (a, b, c) = o.unpack();
+            g(a) || g(b) || g(c)
+        }
+        Instruction::JMPF(o) => g(o.unpack().0),
+        Instruction::JMPB(o) => g(o.unpack().0),
+        Instruction::JNZF(o) => {
+            let (c, d, _) = o.unpack();
+            g(c) || g(d)
+        }
+        Instruction::JNZB(o) => {
+            let (c, d, _) = o.unpack();
+            g(c) || g(d)
+        }
+        Instruction::JNEF(o) => {
+            let (a, b, d, _) = o.unpack();
+            g(a) || g(b) || g(d)
+        }
+        Instruction::JNEB(o) => {
+            let (a, b, d, _) = o.unpack();
+            g(a) || g(b) || g(d)
+        }
+        Instruction::JAL(o) => g(o.unpack().1),
+        _ => false,
+    }
+}
+
 struct FlowMon;
 
 impl StepMonitor for FlowMon {
@@ -144,7 +198,18 @@ impl StepMonitor for FlowMon {
         let Some(instr) = &s.instr else {
             return; // invalid word: C29 territory
         };
+        let gas_operand = reads_gas_register(instr);
+        if gas_operand && !matches!(s.end, StepEnd::Continue) {
+            // the values after charging are not observable once the program has ended
+            rep.count("unjudged_jumps_reading_a_gas_register");
+            return;
+        }
+        GAS_VIEW.with(|v| v.set(if gas_operand { Some((s.post.regs[RegId::GGAS.to_u8() as usize], s.post.regs[RegId::CGAS.to_u8() as usize])) } else { None }));
         let flow = reference(instr, pre);
+        GAS_VIEW.with(|v| v.set(None));
+        if gas_operand {
+            rep.count("jumps_reading_a_gas_register_judged_with_the_charged_value");
+        }
         let name = s.opcode_name();
         // what happened
         let own = s.own_panic();
